@@ -49,7 +49,11 @@ impl SimpleCase for JsonCase {
         // parsing it back with the three entry points
         let text = String::from_utf8_lossy(&bytes).to_string();
         let want = SMapT { contents: if m.contents.iter().all(|c| c.is_empty()) { vec![] } else { m.contents.clone() }, ..m.clone() };
-        for (name, r) in [("from_json", SourceMap::from_json(&text).ok()), ("from_slice", SourceMap::from_slice(&bytes).ok()), ("from_reader", SourceMap::from_reader(&bytes[..]).ok())] {
+        // a reader that hands out the bytes in short reads of varying size
+        struct Chunky<'a> { data: &'a [u8], step: usize }
+        impl std::io::Read for Chunky<'_> { fn read(&mut self, buf: &mut [u8]) -> std::io::Result<usize> { let n = self.step.min(buf.len()).min(self.data.len()); buf[..n].copy_from_slice(&self.data[..n]); self.data = &self.data[n..]; self.step = self.step % 13 + 1; Ok(n) } }
+        for (name, r) in [("from_json", SourceMap::from_json(&text).ok()), ("from_slice", SourceMap::from_slice(&bytes).ok()), ("from_reader", SourceMap::from_reader(&bytes[..]).ok()),
+                          ("from_reader(short reads)", SourceMap::from_reader(Chunky { data: &bytes, step: 3 }).ok())] {
           match r { Some(x) => if SMapT::of(&x) != want { v.push(finding("round-trip", format!("{name}: {:?} instead of {:?}", SMapT::of(&x), want))); }, None => v.push(finding("round-trip", format!("{name} rejects the document to_json produced"))) }
         }
       }
@@ -95,7 +99,13 @@ impl SimpleCase for JsonCase {
 
 const SCALARS: &[char] = &['a', 'b', ' ', '"', '\\', '/', '\n', '\r', '\t', '\u{8}', '\u{c}', '\u{0}', '\u{1f}', '\u{7f}', '\u{80}', 'é', '\u{2028}', '\u{2029}', '日', '\u{ffff}', '😀', '\u{10ffff}', '{', ',', ':', '[', 'u'];
 pub fn ustr(rng: &mut Rng, max: usize) -> String { (0..rng.below(max + 1)).map(|_| if rng.chance(6) { char::from_u32(rng.below(0xD7FF) as u32).unwrap_or('x') } else { *rng.pick(SCALARS) }).collect() }
+/// a long string of mixed 1-4 byte characters (documents beyond typical I/O buffer sizes)
+fn long_str(rng: &mut Rng) -> String { let n = 2000 + rng.below(4000); (0..n).map(|_| *rng.pick(&['a', 'é', '日', '😀', ' ', 'z'])).collect() }
 pub fn gen_smap(rng: &mut Rng) -> SMapT {
+  if rng.chance(40) {
+    let pad = "p".repeat(rng.below(9));
+    return SMapT { mappings: "AAAA".into(), sources: vec![format!("{pad}a.js")], contents: vec![long_str(rng), long_str(rng)], names: vec![long_str(rng)], file: None, root: None, debug_id: None }
+  }
   let list = |rng: &mut Rng, all_empty: bool| -> Vec<String> { (0..rng.below(4)).map(|_| if all_empty || rng.chance(4) { String::new() } else { ustr(rng, 6) }).collect() };
   let ae = rng.chance(3);
   SMapT { mappings: if rng.chance(2) { "AAAA;ACDE".into() } else { ustr(rng, 6) }, sources: list(rng, false), contents: list(rng, ae), names: list(rng, false),
